@@ -582,6 +582,18 @@ type c13Reads struct {
 	frames [][]byte
 }
 
+// promptConn holds every write of a 'Y' (outstanding frames) query for a moment after the
+// bytes have gone out, so that the TNC's reply reaches the host's reader first
+type promptConn struct{ net.Conn }
+
+func (c promptConn) Write(b []byte) (int, error) {
+	n, err := c.Conn.Write(b)
+	if len(b) > 4 && b[4] == 'Y' {
+		time.Sleep(15 * time.Millisecond)
+	}
+	return n, err
+}
+
 // run executes the scenario; it returns the failures and, for fault-free scenarios, the Read trace.
 func (sc c13Scenario) run(r Rng) (fails []Failure, reads *c13Reads) {
 	fail := func(site, msg string, args ...interface{}) {
@@ -609,6 +621,11 @@ func (sc c13Scenario) run(r Rng) (fails []Failure, reads *c13Reads) {
 		a, b := memPipe(0)
 		a.maxSeg = sc.maxSeg // what the host reads from the TNC arrives in pieces of at most maxSeg bytes
 		hostConn, tncConn = a, b
+	}
+	if sc.fault == "" && sc.id%5 == 2 {
+		// a prompt TNC on a slow host: the answer to an outstanding-frames query is already on
+		// its way in while the host's write call has not yet returned
+		hostConn = promptConn{hostConn}
 	}
 	sim := newAgwSim(tncConn)
 	switch sc.fault {
